@@ -901,6 +901,13 @@ def handle (ts : List String) : String :=
     match runP pMsg rest with
     | some m => encStr (Xml.toString m)
     | none => "bad-op"
+  | "xml" :: "sessionflat" :: rest =>
+    -- all deliveries of a session flattened, and the data retained at the end
+    match runP (do let T ← pThreshold; let ps ← pList pStr; pure (T, ps)) rest with
+    | some (T, ps) =>
+      let r := Buf.session xmlBufParse (Generated.messageClasses.map (·.tag)) T [] ps
+      if r.1.flatten.any Option.isNone then "uns" else encDeliv' r.1.flatten ++ " ; " ++ encStr r.2
+    | none => "bad-op"
   | "xml" :: "session" :: rest =>
     match runP (do let T ← pThreshold; let ps ← pList pStr; pure (T, ps)) rest with
     | some (T, ps) =>
